@@ -1,6 +1,9 @@
 import Larking.Driver.Util
 import Larking.Gen.Codes
 import Larking.Model.Status
+import Larking.Gen.Grpc
+import Larking.Model.Timeout
+import Larking.Model.Metadata
 namespace Larking.Driver
 open Larking.Status
 
@@ -19,7 +22,36 @@ def handleC05 : List String → Option String
   | ["b64dec", url, pad, h] => (hexArg h).map fun b => optHex (Base64.decode (url == "url") (pad == "pad") b)
   | _ => none
 
-def handlers : List (List String → Option String) := [handleC05]
+/-- entries: `khex:xv1,xv2;khex:…` (values carry an `x` prefix so that an empty value and
+an empty list differ). -/
+def parseMD (s : String) : Option Metadata.MD :=
+  if s.isEmpty then some [] else
+  (s.splitOn ";").mapM fun e =>
+    match e.splitOn ":" with
+    | [k, vs] => do
+        let kb ← hexArg k
+        let vals ← (if vs.isEmpty then some [] else (vs.splitOn ",").mapM fun v => hexArg (v.drop 1).toString)
+        pure (kb, vals)
+    | _ => none
+
+def showMD (md : Metadata.MD) : String :=
+  let entries := md.map fun kv => toHex kv.1 ++ ":" ++ ",".intercalate (kv.2.map fun v => "x" ++ toHex v)
+  ";".intercalate (entries.toArray.qsort (· < ·)).toList
+
+def handleC14C15 : List String → Option String
+  | ["timeout", h] => (hexArg h).map fun b =>
+      match Timeout.decodeTimeout Gen.timeoutUnits Gen.timeoutMinLen Gen.timeoutMaxLen Gen.timeoutAcceptsSign b with
+      | .ok v => "ok " ++ toString v
+      | _ => "err"
+  | ["bindec", h] => (hexArg h).map fun b => optHex (Metadata.decodeBin Gen.binPaddedWhenMul4 b)
+  | ["binenc", h] => (hexArg h).map fun b => toHex (Metadata.encodeBin b)
+  | ["canon", h] => (hexArg h).map fun b => toHex (Metadata.canonical b)
+  | ["mdin", e] => (parseMD e).map fun md =>
+      showMD (Metadata.incoming Gen.reservedHeaders Gen.whitelistedHeaders Gen.binPaddedWhenMul4 md)
+  | ["mdout", e] => (parseMD e).map fun md => showMD (Metadata.outgoing Gen.reservedHeaders md)
+  | _ => none
+
+def handlers : List (List String → Option String) := [handleC05, handleC14C15]
 
 def handle (args : List String) : String :=
   match handlers.findSome? (fun h => h args) with
